@@ -1229,7 +1229,10 @@ class Problem:
         # performed, we evaluate the objective and nonlinear constraint
         # functions at the initial guess.
         if len(self._fun_filter) == 0:
-            self(self.x0)
+            # The callback may request to stop; there is nothing to stop here
+            # since this is the only evaluation.
+            with suppress(CallbackSuccess):
+                self(self.x0)
 
         # Find the best point in the filter.
         fun_filter = np.array(self._fun_filter)
